@@ -482,9 +482,19 @@ def conf_bytes(exp):
     return out
 
 
-def judge_reload(before, before_bytes, exp2, viol, where, cnt):
+def judge_reload(before, before_bytes, exp2, viol, where, cnt, ignore=(), tag=''):
     from checks.c15 import first_diff
     after = snapshot_experiment(exp2)
+    for k in ignore:
+        after.pop(k, None)
+        before.pop(k, None)
+    if tag:
+        # the platform was not named on this load: sections addressed by the platform's *name* (a component's
+        # override.<platform>) are not reachable; what they contribute is in the resolved values, which are compared
+        for snap in (before, after):
+            for n in snap.get('nodes', {}).values():
+                if isinstance(n.get('config'), dict):
+                    n['config'].pop('override', None)
     after_bytes = conf_bytes(exp2)
 
     def V(sig, detail):
@@ -502,7 +512,7 @@ def judge_reload(before, before_bytes, exp2, viol, where, cnt):
           {'path': d[0], 'writer': json.dumps(d[1], default=repr)[:300], 'reloaded': json.dumps(d[2], default=repr)[:300]})
     for f in before_bytes:
         if before_bytes[f] != after_bytes[f]:
-            V('fixpoint:%s-changes-on-load-and-store' % f, {'before': None if before_bytes[f] is None else len(before_bytes[f]),
+            V('fixpoint:%s-changes-on-load-and-store%s' % (f, tag), {'before': None if before_bytes[f] is None else len(before_bytes[f]),
                                                            'after': None if after_bytes[f] is None else len(after_bytes[f])})
     cnt['probe.reloads_judged'] = cnt.get('probe.reloads_judged', 0) + 1
 
